@@ -29,8 +29,8 @@ from simkit.rng import seed_globals  # noqa: E402
 from simkit.world import InvalidScenario, Monitor, Violation, result, run_sim, seeded_uuid  # noqa: E402
 
 PROPERTY = "C09"
-RUNS = {"quick": 20_000, "thorough": 500_000}
-WALL = {"quick": 30, "thorough": 1500}
+RUNS = {"quick": 12_000, "thorough": 500_000}
+WALL = {"quick": 40, "thorough": 1500}
 BATCH = {"quick": 250, "thorough": 1000}
 SELFTEST_RUNS = 24
 RULE = (
@@ -48,7 +48,7 @@ REAL = [
     "components.resource.Resource/Grant", "components.sync.Mutex/Semaphore/RWLock/Barrier/Condition",
     "components.client.connection_pool.ConnectionPool (ConstantLatency set-up)", "components.resilience.bulkhead.Bulkhead",
     "components.server.thread_pool.ThreadPool (+Queue, QueueDriver, FIFOQueue)",
-    "components.server.concurrency.Fixed/Dynamic/WeightedConcurrency",
+    "components.server.concurrency.Fixed/Dynamic/WeightedConcurrency (plain and inside a real components.server.server.Server)",
     "components.industrial.preemptible_resource.PreemptibleResource/PreemptibleGrant",
 ]
 STUBS = [
@@ -69,6 +69,11 @@ ASSUMPTIONS = [
     "Resource amounts are integers or dyadic fractions (exact in binary); float rounding of non-dyadic amounts is not judged",
     "DynamicConcurrency after a scale-down below the active count: active may exceed the limit (documented); then only "
     "'no new admission' and available == 0 are required",
+    "maintenance methods (Barrier.reset/abort, ConnectionPool.close_all, DynamicConcurrency.set_limit/scale_*) are outside the "
+    "statement; they are modelled by what their docstrings promise, weaker reading where silent: parties of a round abandoned "
+    "by reset()/abort() may come back by RuntimeError or by returning (HEAD returns, the docstring says RuntimeError - counted, "
+    "not judged) but never count for a later round; wait() on an aborted barrier raises; close_all() empties the pool, its "
+    "waiters get TimeoutError, releasing a connection it closed changes nothing; a raised limit admits queued work within the instant",
     "ThreadPool/Bulkhead: a request refused because the queue is full is counted, not judged; 'as soon as capacity allows' is "
     "judged at the end of an instant (queued work while a worker/slot is idle when the clock is about to advance)",
     "Condition: spurious wakeups are documented and not judged; returning from wait() without any notify covering it is judged",
@@ -94,7 +99,12 @@ EXPECTED_PROBES = [
     # 2-3 independent instances of one primitive class in one simulation (shared-state detector)
     "probe.multi.instances_active_together", "probe.multi.resource", "probe.multi.mutex", "probe.multi.semaphore",
     "probe.multi.rwlock", "probe.multi.barrier", "probe.multi.condition", "probe.multi.pool", "probe.multi.bulkhead",
-    "probe.multi.threadpool", "probe.multi.concurrency", "probe.multi.preemptible",
+    "probe.multi.threadpool", "probe.multi.concurrency", "probe.multi.preemptible", "probe.multi.server",
+    # public maintenance methods at generated instants (also while waiters are blocked), then continued use
+    "probe.barrier_reset_with_waiters", "probe.barrier_abort_with_waiters", "probe.barrier_tripped_after_reset",
+    "probe.wait_on_aborted_raised", "probe.close_all_with_active_connections", "probe.close_all_with_waiters",
+    "probe.waiter_released_by_close_all", "probe.release_of_closed_connection",
+    "probe.limit_raised_under_backlog", "probe.limit_lowered",
 ]
 SHRINK_SKIP = ("family", "klass", "kind")  # the shrinker may drop whole instances from "subs"
 SHRINK_BUDGET_S = {"quick": 20.0, "thorough": 60.0}
@@ -309,6 +319,19 @@ def gen_barrier(rng):
             for _ in range(rng.randint(1, 5)):
                 ops += [{"op": "wait"}] + _hold(rng)
             workers.append({"t": times[i], "ops": ops})
+    if rng.random() < 0.3:
+        # maintenance: reset()/abort() at generated instants (also while parties wait), then continued use
+        klass += "+maintenance"
+        ops = []
+        for _ in range(rng.randint(1, 4)):
+            ops.append({"op": "hold", "ns": rng.choice([0, 1 * MS, 2 * MS, 3 * MS, 4 * MS, 6 * MS, 9 * MS])})
+            r = rng.random()
+            ops += [{"op": "reset"}] if r < 0.6 else [{"op": "abort"}, {"op": "hold", "ns": rng.choice([0, 1 * MS, 3 * MS])}, {"op": "reset"}]
+        workers.append({"t": rng.choice(T_CLUSTER), "ops": ops})
+        if rng.random() < 0.5:   # the workers themselves also reset now and then, between two waits
+            for w_ in workers[:-1]:
+                if rng.random() < 0.3 and w_["ops"]:
+                    w_["ops"].insert(rng.randrange(len(w_["ops"]) + 1), {"op": "reset"})
     return {"family": "barrier", "klass": f"barrier/{klass}", "cfg": {"parties": parties}, "workers": workers}
 
 
@@ -398,6 +421,13 @@ def gen_pool(rng):
                 ops += cyc([0, 1 * MS, 5 * MS, 30 * MS]) + [{"op": "hold", "ns": rng.choice([0, 1 * MS, cfg["idle_ns"] - 1, cfg["idle_ns"], cfg["idle_ns"] + 1, 3 * cfg["idle_ns"]])}]
             workers.append({"t": t, "ops": ops})
             t += _prog_span(ops) + 4 * setup + rng.choice([1 * MS, cfg["idle_ns"], 2 * cfg["idle_ns"] + 1 * MS])
+    if rng.random() < 0.2:
+        # maintenance: close_all() at generated instants (with active connections / waiters / set-ups in flight), then continued use
+        klass += "+close_all"
+        ops = []
+        for _ in range(rng.randint(1, 3)):
+            ops += [{"op": "hold", "ns": rng.choice([0, 1 * MS, 5 * MS, 20 * MS, 60 * MS, 150 * MS, 400 * MS])}, {"op": "close_all"}]
+        workers.append({"t": rng.choice([0, 1 * MS, workers[-1]["t"]]), "ops": ops})
     last = max(w["t"] + _prog_span(w["ops"]) for w in workers)
     n_ops = sum(1 for w in workers for o in w["ops"] if o["op"] == "acq")
     end = last + n_ops * (cfg["timeout_ns"] + setup + 200 * MS) + 3 * cfg["idle_ns"] + 1000 * MS
@@ -455,6 +485,27 @@ def gen_concurrency(rng):
     return {"family": "concurrency", "klass": f"concurrency/{kind}", "cfg": cfg, "workers": workers}
 
 
+def gen_server(rng):
+    """A real Server in front of a sink; a controller process raises / lowers a DynamicConcurrency limit mid-run."""
+    kind = rng.choice(["dynamic", "dynamic", "dynamic", "fixed"])
+    lim = rng.choice([1, 1, 2, 3])
+    cfg = {"kind": kind, "limit": lim, "queue": rng.choice([None, None, None, 3, 8]),
+           "service_ns": [rng.choice([0, 1 * MS, 2 * MS, 5 * MS, 5 * MS, 12 * MS, 30 * MS]) for _ in range(rng.randint(1, 4))]}
+    n = rng.randint(3, 30)
+    reqs = [{"t": t} for t in sorted(_times(rng, n, rng.choice(["burst", "burst", "cluster", "two", "spread"])))]
+    workers = []
+    if kind == "dynamic":
+        cfg["lo"] = rng.choice([1, 1, min(2, lim)])
+        cfg["hi"] = rng.choice([None, None, lim + 1, lim + 3])
+        for _ in range(rng.choice([1, 1, 2])):
+            ops = []
+            for _ in range(rng.randint(1, 6)):
+                ops.append({"op": "hold", "ns": rng.choice([0, 1 * MS, 2 * MS, 3 * MS, 5 * MS, 7 * MS, 20 * MS])})
+                ops.append({"op": "limit", "how": rng.choice(["set", "up", "up", "down"]), "to": rng.randint(0, 4)})
+            workers.append({"t": rng.choice(T_CLUSTER), "ops": ops})
+    return {"family": "server", "klass": f"server/{kind}", "cfg": cfg, "workers": workers, "requests": reqs}
+
+
 def gen_preemptible(rng):
     klass = rng.choice(["mixed"] * 5 + ["unit-amounts", "no-preempt"])
     cap = rng.choice([1, 2, 3, 3, 4, 6])
@@ -476,7 +527,7 @@ def gen_preemptible(rng):
 
 GENS = [
     (gen_resource, 13), (gen_mutex, 11), (gen_semaphore, 12), (gen_rwlock, 15), (gen_barrier, 8), (gen_condition, 10),
-    (gen_pool, 12), (gen_bulkhead, 6), (gen_threadpool, 3), (gen_concurrency, 3), (gen_preemptible, 7),
+    (gen_pool, 12), (gen_bulkhead, 6), (gen_threadpool, 3), (gen_concurrency, 3), (gen_preemptible, 7), (gen_server, 7),
 ]
 _TOTAL_W = sum(w for _, w in GENS)
 
@@ -538,7 +589,7 @@ def _build_instance(sc, tag):
         workers = fam.make_workers()
     except KeyError as e:
         raise InvalidScenario(f"missing {e}") from None
-    if fam_name in ("bulkhead", "threadpool"):
+    if fam_name in ("bulkhead", "threadpool", "server"):
         if not sc.get("requests"):
             raise InvalidScenario("no requests")
     elif not workers:
